@@ -70,8 +70,18 @@ def _hours_spec(rng) -> str:
         rng_s = "14:00 - 22:00"
     else:
         h = rng.randrange(0, 20)
-        rng_s = f"{h:02d}:{_pick(rng, ['00', '30', '15'])} - {h + rng.randrange(2, 5):02d}:00"
+        rng_s = f"{h:02d}:{_pick(rng, ['00', '30', '15', '20', '10', '50'])} - {h + rng.randrange(2, 5):02d}:{_pick(rng, ['00', '00', '20', '40'])}"
     return f"{days} {rng_s}"
+
+
+def _night_then_day(rng) -> list[str]:
+    """Two working-hours lines: a night shift starting on day d that runs into day d+1, which itself has
+    a day shift (the slot after midnight belongs to the previous day's interval only)."""
+    d = 6 if rng.random() < 0.4 else rng.randrange(7)
+    nxt = (d + 1) % 7
+    night = _pick(rng, ["22:00 - 06:00", "20:00 - 04:00", "23:00 - 07:00", "18:00 - 02:30"])
+    day = _pick(rng, ["09:00 - 17:00", "08:00 - 12:00, 13:00 - 17:00", "10:00 - 15:20"])
+    return [f"{DAYS[d]} {night}", f"{DAYS[nxt]} {day}"]
 
 
 class Proj:
@@ -290,6 +300,10 @@ def gen_project(rng, reports: str = "mixed", size: str = "small") -> dict:
     for i in range(rng.randrange(0, 3)):
         sid = f"sh{i}"
         shift_ids.append(sid)
+        if rng.random() < 0.2:
+            a, b = _night_then_day(rng)
+            p.shifts.append(f'shift {sid} "{sid}" {{\n  workinghours {a}\n  workinghours {b}\n}}')
+            continue
         p.shifts.append(f'shift {sid} "{sid}" {{\n  workinghours {_hours_spec(rng)}\n' + (f"  workinghours {_hours_spec(rng)}\n" if rng.random() < 0.2 else "") + "}")
     # resources
     res_ids = []
